@@ -29,10 +29,8 @@ Section Refine.
   Variable rx_search : str -> str -> option bool.
   Variable rx_full rx_sub : str -> str -> bool.
   (* what the regex model has to provide (discharged in RegexFacts for the modelled dialect) *)
-  Hypothesis Hrx_full : forall p s, no_bslash p = true ->
-    match rx_search (prepare_regex p false) s with Some b => b | None => false end = rx_full p s.
-  Hypothesis Hrx_sub : forall p s, no_bslash p = true ->
-    match rx_search (prepare_regex p true) s with Some b => b | None => false end = rx_sub p s.
+  Hypothesis Hrx_full : forall p s, no_bslash p = true -> regex_result rx_search p s false = rx_full p s.
+  Hypothesis Hrx_sub : forall p s, no_bslash p = true -> regex_result rx_search p s true = rx_sub p s.
   Variable root : json.
 
   Notation Esegment := (e_segment J rx_search root).
@@ -777,8 +775,7 @@ Section Refine.
       assert (Hnb : no_bslash pat = true).
       { destruct lb; cbn in Ex; inversion Ex; subst. cbn [lit_plain] in Hb.
         apply andb_true_iff in Hb. destruct Hb as [Hb _]. apply andb_true_iff in Hb. apply Hb. }
-      rewrite <- (Hrx_sub pat s Hnb).
-      destruct (rx_search (prepare_regex pat true) s) as [[|]|]; reflexivity.
+      rewrite <- (Hrx_sub pat s Hnb). reflexivity.
     - (* FnMatch *)
       intros a IHa b IHb Hok v. cbn [ok_tfun] in Hok.
       apply andb_true_iff in Hok. destruct Hok as [Ha Hb].
@@ -793,8 +790,7 @@ Section Refine.
       assert (Hnb : no_bslash pat = true).
       { destruct lb; cbn in Ex; inversion Ex; subst. cbn [lit_plain] in Hb.
         apply andb_true_iff in Hb. destruct Hb as [Hb _]. apply andb_true_iff in Hb. apply Hb. }
-      rewrite <- (Hrx_full pat s Hnb).
-      destruct (rx_search (prepare_regex pat false) s) as [[|]|]; reflexivity.
+      rewrite <- (Hrx_full pat s Hnb). reflexivity.
     - (* ArgLit *)
       intros l v. split; [|discriminate]. cbn [ok_arg_value]. intros Hok.
       steps; cbn [as_value]. destruct (lit_denot_plain l Hok) as [x [-> [Hs ->]]].
@@ -836,10 +832,8 @@ End Refine.
 Section TheoremA.
   Variable rx_search : str -> str -> option bool.
   Variable rx_full rx_sub : str -> str -> bool.
-  Hypothesis Hrx_full : forall p s, no_bslash p = true ->
-    match rx_search (prepare_regex p false) s with Some b => b | None => false end = rx_full p s.
-  Hypothesis Hrx_sub : forall p s, no_bslash p = true ->
-    match rx_search (prepare_regex p true) s with Some b => b | None => false end = rx_sub p s.
+  Hypothesis Hrx_full : forall p s, no_bslash p = true -> regex_result rx_search p s false = rx_full p s.
+  Hypothesis Hrx_sub : forall p s, no_bslash p = true -> regex_result rx_search p s true = rx_sub p s.
 
   (* js_path_process never takes its Err arm and returns exactly the nodelist of the semantics *)
   Theorem js_path_process_refines (q : query) (root : json) :
